@@ -502,13 +502,9 @@ fn c11_sigil_float() {
     assert!(got.to_bits() == ((x as f64) as f32).to_bits());
     match V::Int(x).read_as_float() { Some(g) => assert!(g.to_bits() == got.to_bits()), None => panic!("read_as_float(int) has a value") }
 }
-//@ C11 c11_un_sqrt thorough float sqrt(x) is the IEEE single square root (Rust's f32::sqrt as the trusted primitive)
-#[kani::proof]
-fn c11_un_sqrt() {
-    let x: f32 = kani::any();
-    let got = match U::Sqrt.const_eval(V::Float(x)) { Some(V::Float(f)) => f, _ => panic!("sqrt must be a float") };
-    assert!(same_f32(got, x.sqrt()));
-}
+// sqrt is NOT under contract: CBMC models sqrtf as a nondeterministic over-approximation (two calls on the
+// same argument may differ), so even "equals Rust's f32::sqrt" yields a counterexample that passes when
+// replayed natively (measured in the thorough tier).  Listed under `unverified`.
 
 // ---------------------------------------------------------------------------------------
 // literal <-> value: the folder replaces a constant subexpression by `Expr::from(value)` and reads
